@@ -78,6 +78,7 @@ class World:
         self.clock = None
         self.last_outcome = ''
         self.last_event = None
+        self.owners = None
         self.trace = []          # short human-readable outcome per event
         from . import store
         store.install_clock()
@@ -194,16 +195,30 @@ class World:
         probe = self.absent_id()
         last = self.last_event or {}
         tag = '%s:%s' % (last.get('k', '?'), last.get('name', ''))
+        failures = []
         for i, s in enumerate(self.pool):
             msg = coherence(s.real, probe)
             if msg:
-                self.fail('coherence', 'slot %d: %s' % (i, msg))
+                failures.append(('coherence', 'slot %d after %s: %s'
+                                 % (i, tag, msg)))
             d = diff_ref(Snap(s.real), s.ref)
             if d:
-                self.fail('bystander.changed', 'slot %d after %s: %s'
-                          % (i, tag, d))
+                failures.append(('bystander.changed', 'slot %d after %s: %s'
+                                 % (i, tag, d)))
             self.case('bystander.changed', tag, s, pool=len(self.pool))
             self.probe_count['coherence'] += 1
+        if failures:
+            # several invariants can break at once (a table another one was
+            # derived from is both changed and incoherent): report the one
+            # the checked property owns
+            pick = failures[0]
+            if self.owners is not None:
+                from .runner import owns
+                for f in failures:
+                    if owns(self.owners, f[0]):
+                        pick = f
+                        break
+            self.fail(pick[0], pick[1])
         self.check_errprofile()
         # every property's domain is finite values: a table that overflowed
         # to inf/nan through arithmetic leaves the simulation
